@@ -683,6 +683,16 @@ def run_canaries(pc, props_mod, limit=None):
                 props_mod.build(sub, E, canary=can)
                 failed = bool(sub.undecided or sub.violations)
                 if not failed:
+                    # a baselined clause of a function that was verified in this run is no longer generated (e.g. every
+                    # path of one contract case now raises, so its ensures never come up): the proof shape changed
+                    base = load_json('baseline_obligations.json', {}).get(pc.pid) or []
+                    got = set(it.clause for it in sub.items)
+                    stems = [f['function'].split('clastic.', 1)[-1].split('#')[0] for f in sub.functions if f.get('function')]
+                    for c in base:
+                        if c not in got and any(c.startswith(st + '/') or c.startswith(st + '[') for st in stems):
+                            failed = True
+                            break
+                if not failed:
                     # one failing obligation is enough; short budget, no refutation search
                     for it in sub.items:
                         if it.result is None:
@@ -711,6 +721,7 @@ def main(argv):
     ap.add_argument('--replay', default=None)
     ap.add_argument('--rebaseline', action='store_true')
     ap.add_argument('--no-canaries', action='store_true')
+    ap.add_argument('--all-canaries', action='store_true', help='run every canary mutant also in the quick tier')
     ap.add_argument('-v', action='store_true')
     a = ap.parse_args(argv)
     seed = int(os.environ.get('VERIF_SEED', '0') or 0)
@@ -739,7 +750,7 @@ def main(argv):
         props_mod.build(pc, E)
         pc.solve()
         if not a.no_canaries and not a.rebaseline:
-            run_canaries(pc, props_mod, limit=None if a.tier == 'thorough' else getattr(props_mod, 'QUICK_CANARIES', 2))
+            run_canaries(pc, props_mod, limit=None if (a.tier == 'thorough' or a.all_canaries) else getattr(props_mod, 'QUICK_CANARIES', 2))
         for n in sorted(getattr(E, 'used_default_externals', ())):
             pc.assumptions.append('external %s: default contract (any result, may raise any Exception, assigns nothing)' % n)
     except Exception:
